@@ -218,7 +218,8 @@ def run_exec(work, binary, scenarios, tag, test="TestExec", timeout=900, extra_e
                 pass
         open(outfile, "w").writelines(keep)
         skip = idx
-        if len(crashes) >= 8:
+        hangs = sum(1 for c in crashes if "verif watchdog" in c["stderr"])
+        if len(crashes) >= 8 or hangs >= 2:
             break
     log("executed %d scenarios in %.1fs (%d crashes)" % (len(scenarios), time.time() - t0, len(crashes)))
     return outfile, crashes
